@@ -94,8 +94,8 @@ class one3d(PseudoNetCDFFile):
 
         self.__memmap = memmap(self.rffile, '>f', 'r', offset=0)
         if rows is None and cols is None:
-            rows = 1
-            cols = self.__memmap[[-1]].view('>i')[0] // 4 - 2
+            rows = self.__memmap[[-1]].view('>i')[0] // 4 - 2
+            cols = 1
         self.__record_items = rows * cols + 4
 
         self.__records = self.__memmap.shape[0] // self.__record_items
